@@ -30,6 +30,7 @@ THEOREMS = [
     'Px.Conn.C01_flush_fifo', 'Px.Relay.C01_tunnel_down', 'Px.Relay.C01_tunnel_up',
     'Px.Relay.C01_http_down', 'Px.Relay.C01_only_injection', 'Px.Relay.C01_pending_is_suffix',
     'Px.Conn.C01_progress', 'Px.Relay.C01_progress_tick', 'Px.Relay.C01_no_empty_elements',
+    'Px.Relay.C01_tunnel_early',
 ]
 RULE = ('flush: op sequences (queue sizes 0..140 KiB straddling max_send, every send outcome) on the real '
         'TcpClientConnection/TcpServerConnection vs Conn.flush; relay: tick schedules (readiness subsets, every '
@@ -220,6 +221,10 @@ def timeout_units(case):
 def _args(case):
     args, opts, req, kind = SETUPS[case['setup']]
     args = list(args)
+    if case.get('early') is not None:
+        # bytes sharing the TCP segment with the establishing request (early tunnel payload /
+        # bytes following the first HTTP request)
+        req = req + payload(case['early'])
     if case.get('max') is not None:
         args += ['--max-sendbuf-size', str(case['max'])]
     if case.get('timeout') is not None:
@@ -264,16 +269,18 @@ def _trace(sock, n0):
 
 
 @functools.lru_cache(maxsize=64)
-def _http_req_queued(setup, mx):
+def _http_req_queued(setup, mx, early_hex=None):
     """what the REAL establishment queues for the upstream (boundary to C02: its content is a given here)"""
     case = {'setup': setup, 'max': mx}
+    if early_hex is not None:
+        case['early'] = {'hex': early_hex}
     args, opts, req, kind = _args(case)
     with sim.World(args=args, **opts) as w:
         h, cs, cp, us = establish(w, case)
         return tuple(_up_elems(h))
 
 
-def _init_state(setup, mx, extra_key):
+def _init_state(setup, mx, extra_key, early=None):
     """The established state the model starts from, fixed by the harness (NOT read from the
     implementation, so that a wrong establishment shows up in the `init` observation):
     kind, client buffer (the canned packet of proxy.http.responses + extra pieces), upstream
@@ -287,7 +294,9 @@ def _init_state(setup, mx, extra_key):
     }
     cb = [bytes(pkt[setup])] if setup in pkt else []
     cb += [payload(sp) for sp in _unkey(extra_key)]
-    ub = _http_req_queued(setup, mx) if setup == 'http' else ()
+    ub = _http_req_queued(setup, mx, early.hex() if early is not None else None) if setup == 'http' else ()
+    if setup == 'tunnel' and early:
+        ub = (early,)        # early tunnel payload is queued for the upstream exactly as received
     return (kind, tuple(cb), tuple(ub), kind == 'local', False)
 
 
@@ -307,6 +316,7 @@ def run_relay(case, after=None):
         h, cs, cp, us = establish(w, case)
         shadow = Shadow(w.flags)
         init_c = sim.flat(h.work)
+        init_u = b''.join(_up_elems(h))
         obs = ['init ' + st_str(w, h, cs, us, 'None', 'None')]
         apps = []
         steps = []          # per tick: dict for the oracles
@@ -382,7 +392,7 @@ def run_relay(case, after=None):
                 break
         res = {
             'line': ' | '.join(obs), 'apps': apps, 'steps': steps, 'ret': ret, 'kind': kind,
-            'init_c': init_c, 'csent': None, 'usent': None,
+            'init_c': init_c, 'init_u': init_u, 'csent': None, 'usent': None,
         }
         if after is not None:
             after(w, h, cs, cp, us, res)
@@ -398,7 +408,8 @@ def run_relay(case, after=None):
 
 
 def relay_model_line(case, apps=None):
-    kind, cb, ub, mf, rt = _init_state(case['setup'], case.get('max'), _key(case.get('extra', [])))
+    kind, cb, ub, mf, rt = _init_state(case['setup'], case.get('max'), _key(case.get('extra', [])),
+                                       payload(case['early']) if case.get('early') is not None else None)
     mx = case.get('max')
     if mx is None:
         from proxy.common.constants import DEFAULT_MAX_SEND_SIZE
@@ -464,7 +475,9 @@ def oracle(case):
     if r['init_c'] != inj:
         return 'established state holds unexpected client output'
     recv_u = b''
-    recv_c = b''
+    recv_c = payload(case['early']) if case['setup'] == 'tunnel' and case.get('early') is not None else b''
+    if case['setup'] == 'tunnel' and r['init_u'] != recv_c:
+        return 'early tunnel payload not queued for the upstream exactly as received'
     sent_c = b''
     sent_u = b''
     terminal = False     # something happened after which the proxy may stop relaying
@@ -733,11 +746,50 @@ def cut(rng, data, pieces=None):
     return out
 
 
-def relay_case(setup, ticks, mx=None, extra=None, kind='relay'):
+def relay_case(setup, ticks, mx=None, extra=None, kind='relay', early=None):
     c = {'kind': kind, 'setup': setup, 'max': mx, 'ticks': ticks}
     if extra:
         c['extra'] = extra
+    if early is not None:
+        c['early'] = early
     return c
+
+
+TLS_HELLO = bytes.fromhex('16030100c2010000be0303') + bytes(range(32)) + b'\x00\x00\x02\x13\x01\x01\x00'
+EARLY_TUNNEL = [b'', b'\r\n', b'\r\nX', b'\r\n\r\n', b'\n', b'\r', b'\n\r\nab', b'\r\r\n', b'\x00', b'\x00\xff\r\n', TLS_HELLO,
+                b'\r\n' + TLS_HELLO, b'GET / HTTP/1.1\r\n\r\n', b' ', b'\r\n ' * 3]
+# (a first request followed by a stray CRLF in the same segment makes the real handler tear the
+#  connection down at once - not an established exchange, reported to the C04/C06 owners)
+EARLY_HTTP = [b'GET http://example.org/b HTTP/1.1\r\nHost: example.org\r\n\r\n', b'GET http://example.org/c HT',
+              b'POST http://example.org/d HTTP/1.1\r\nHost: example.org\r\nContent-Length: 3\r\n\r\nabc', b'G']
+
+
+def early_cases(rng, n_random=0, big=False):
+    """establishment with bytes sharing the segment of the establishing request"""
+    drain = [['m0001', 'b', 'b', 'b', ['s', 10 ** 6]], ['m0101', 'b', ['s', 10 ** 6], 'b', ['s', 3]],
+             ['m1001', ['d', {'hex': 'c1c2c3'}], 'b', 'b', ['s', 10 ** 6]], ['m0001', 'b', 'b', 'b', ['s', 10 ** 6]]]
+    for e in EARLY_TUNNEL:
+        for mx in (None, 2):
+            yield relay_case('tunnel', [list(t) for t in drain], mx, early={'hex': e.hex()})
+    for e in EARLY_HTTP:
+        yield relay_case('http', [MENU[7], MENU[0], MENU[4]], None, early={'hex': e.hex()})
+    for _ in range(n_random):
+        k = rng.random()
+        if k < 0.5:
+            e = rng.choice([b'', b'\r\n', b'\n', b'\r']) + rnd_bytes(rng, rng.randint(0, 40))
+        elif k < 0.8:
+            e = rnd_bytes(rng, rng.randint(1, 300))
+        else:
+            e = rng.choice(EARLY_TUNNEL) + rnd_bytes(rng, rng.randint(0, 5))
+        c = gen_relay_case(rng, 'tunnel')
+        c['early'] = {'hex': e.hex()}
+        yield c
+    yield relay_case('tunnel', [['m0001', 'b', 'b', 'b', ['s', 10 ** 6]] for _ in range(3)], None,
+                     early={'n': 70000, 'a': 253, 'b': 13})      # > 64 KiB, starts with CR LF
+    for _ in range(2 if not big else 12):
+        n = rng.choice([65536, 65537, 70000])
+        yield relay_case('tunnel', [['m0001', 'b', 'b', 'b', gen_send(rng, 0.0, ks=(1, 65535, 65536, 10 ** 6))] for _ in range(4)],
+                         rng.choice([None, 0]), early={'n': n, 'a': rng.randrange(1, 256, 2), 'b': rng.choice([13, 10, rng.randrange(256)])})
 
 
 MENU = [
@@ -775,6 +827,8 @@ def corpus():
     cs.append(relay_case('http', [
         ['m0011', 'b', 'b', ['d', {'hex': (b'HTTP/1.1 200 OK\r\nTransfer-Encoding: chunked\r\n\r\n5;ext\r\nhello\r\n0\r\n\r\n').hex()}], ['s', 10 ** 6]],
         MENU[4]]))
+    # CONNECT + early tunnel payload in the same segment, payload starting with CRLF
+    cs.append(relay_case('tunnel', [['m0001', 'b', 'b', 'b', ['s', 10 ** 6]]], None, early={'hex': (b'\r\n' + TLS_HELLO).hex()}))
     # follow-up request on a plain-HTTP exchange (abstract app effect)
     cs.append(relay_case('http', [
         ['m1001', ['d', {'hex': b'GET http://example.org/b HTTP/1.1\r\nHost: example.org\r\n\r\n'.hex()}], 'b', 'b', ['s', 10 ** 6]],
@@ -864,6 +918,8 @@ def generate(rng, tier):
         yield c
     for c in structural_systematic(rng, 1 if not big else 6):
         yield c
+    for c in early_cases(rng, 300 if not big else 4000, big):
+        yield c
     if big:
         for c in systematic(4, mx=1):
             yield c
@@ -891,6 +947,7 @@ def search(rng):
     out = list(systematic(3))
     out += [gen_relay_case(rng, 'tunnel') for _ in range(1500)]
     out += [gen_relay_case(rng, 'http') for _ in range(800)] + list(structural_systematic(rng, 1))
+    out += list(early_cases(rng, 200))
     out += [gen_flush_case(rng, False) for _ in range(1500)] + [gen_flush_case(rng, True) for _ in range(10)]
     return out
 
@@ -900,7 +957,7 @@ def describe(case):
         return ['flush side=' + case['side'], 'flush max=%s' % case['max']]
     n = len(case['ticks'])
     fails = sum(1 for t in case['ticks'] if t[0] != 'R' for o in (t[2], t[4]) if o in ('p', 'o', 'w'))
-    return ['relay ' + case['setup'], 'relay ticks ' + ('<=3' if n <= 3 else '<=10' if n <= 10 else '>10'),
+    return ['relay ' + case['setup'] + ('+early' if case.get('early') is not None else ''), 'relay ticks ' + ('<=3' if n <= 3 else '<=10' if n <= 10 else '>10'),
             'relay max=%s' % case.get('max'), 'relay send-failures=%d' % min(fails, 3)]
 
 
